@@ -126,7 +126,7 @@ impl ContinuityStreamCache {
             r matches Ok(None) ==> sidecar_present(id@) ==> best_row(ck_rows(truth(id@)), max_to_seq) is None,
     { unimplemented!() }
 }
-pub struct ContinuityStore { pub stream_cache: ContinuityStreamCache }
+pub struct ContinuityStore { pub stream_cache: ContinuityStreamCache, pub workspace_root: PathBuf }
 //@@ item crates/ripd/src/continuities.rs struct CompactionCutPointsV1Request dropderive=Clone
 //@@ item crates/ripd/src/continuities.rs struct CompactionCutPointsV1Response dropderive=Clone
 //@@ item crates/ripd/src/continuities.rs struct CompactionCutPointV1 dropderive=Clone
@@ -148,6 +148,46 @@ pub assume_specification<T>[ Option::<Option<T>>::flatten ](o: Option<Option<T>>
     ensures r == (if idx < rows@.len() { Some(rows@[idx as int]) } else { None }),
 { unimplemented!() }
 #[verifier::external_body] pub fn vclamp(v: u32, lo: u32, hi: u32) -> (r: u32) requires lo <= hi ensures lo <= r <= hi, (lo <= v <= hi ==> r == v), (v < lo ==> r == lo), (v > hi ==> r == hi) { unimplemented!() }
+
+
+// ---- manual checkpoint (compaction_checkpoint_cumulative_v1) -----------------------------------------------------------------------
+//@@ item crates/ripd/src/continuities.rs struct CompactionCheckpointCumulativeV1Request dropderive=Clone
+//@@ item crates/ripd/src/continuities.rs struct CompactionCheckpointCreatedPayload
+//@@ item crates/ripd/src/compaction_summary.rs struct NewCumulativeCompactionSummaryV1 dropderive=Clone
+//@@ item crates/ripd/src/compaction_summary.rs const COMPACTION_SUMMARY_SCHEMA_V1
+//@@ item crates/ripd/src/compaction_summary.rs const COMPACTION_SUMMARY_KIND_CUMULATIVE_V1
+pub struct PathBuf { pub filler: u8 }
+pub uninterp spec fn checkpoint_written(thread: Seq<char>, to_seq: u64, to_message_id: Seq<char>, artifact: Seq<char>) -> bool;      // timeless: a checkpoint frame with these fields was appended
+pub uninterp spec fn summary_covers(artifact: Seq<char>, thread: Seq<char>, to_seq: u64) -> bool;      // timeless: a stored summary with this id covers this thread up to to_seq
+pub struct CompactionSummaryV1 { pub thread: Seq<char>, pub to_seq_: u64, pub art: Seq<char>, pub filler: u8 }
+impl CompactionSummaryV1 {
+    #[verifier::external_body] pub fn schema(&self) -> &str { unimplemented!() }
+    #[verifier::external_body] pub fn kind(&self) -> &str { unimplemented!() }
+    #[verifier::external_body] pub fn coverage_thread_id(&self) -> (r: &str) ensures r@ == self.thread { unimplemented!() }
+    #[verifier::external_body] pub fn coverage_to_seq(&self) -> (r: u64) ensures r == self.to_seq_ { unimplemented!() }
+    #[verifier::external_body] pub fn new_cumulative_source_cut(n: NewCumulativeCompactionSummaryV1) -> (r: CompactionSummaryV1)
+        ensures r.thread == n.thread_id@, r.to_seq_ == n.to_seq,
+    { unimplemented!() }
+}
+#[verifier::external_body] pub fn read_compaction_summary_v1(root: &PathBuf, artifact_id: &str) -> (r: Result<CompactionSummaryV1, String>)
+    ensures r matches Ok(s) ==> (summary_covers(artifact_id@, s.thread, s.to_seq_)),
+{ unimplemented!() }
+#[verifier::external_body] pub fn write_compaction_summary_v1(root: &PathBuf, summary: &CompactionSummaryV1) -> (r: Result<String, String>)
+    ensures r matches Ok(id) ==> summary_covers(id@, summary.thread, summary.to_seq_),
+{ unimplemented!() }
+#[verifier::external_body] pub fn vfind_by_id<'a>(rows: &'a Vec<(u64, String)>, id: &String) -> (r: Option<&'a (u64, String)>)
+    ensures r matches Some(row) ==> row.1@ == id@ && exists|i: int| 0 <= i < rows@.len() && #[trigger] mview(rows@)[i] == (row.0, row.1@),
+{ unimplemented!() }
+#[verifier::external_body] pub fn vfind_by_seq<'a>(rows: &'a Vec<(u64, String)>, seq: u64) -> (r: Option<&'a (u64, String)>)
+    ensures r matches Some(row) ==> row.0 == seq && exists|i: int| 0 <= i < rows@.len() && #[trigger] mview(rows@)[i] == (row.0, row.1@),
+{ unimplemented!() }
+#[verifier::external_body] pub fn vget_row<'a>(rows: &'a Vec<(u64, String)>, idx: usize) -> (r: Option<&'a (u64, String)>)
+    ensures r matches Some(row) ==> idx < rows@.len() && mview(rows@)[idx as int] == (row.0, row.1@), r is None ==> idx >= rows@.len(),
+{ unimplemented!() }
+// [manual_checkpoint.is_a_message_boundary] what may be recorded as a checkpoint of a thread: the seq and id of one of its message frames
+pub open spec fn is_message_boundary(tid: Seq<char>, to_seq: u64, to_message_id: Seq<char>) -> bool {
+    exists|i: int| 0 <= i < msg_rows(truth(tid)).len() && #[trigger] msg_rows(truth(tid))[i] == (to_seq, to_message_id)
+}
 
 pub proof fn lemma_floor_multiple(n: nat, s: nat)
     requires s > 0
@@ -177,6 +217,41 @@ impl ContinuityStore {
     #[verifier::external_body] pub fn replay_events(&self, id: &str) -> (r: io::Result<Vec<Event>>)
         ensures r matches Ok(v) ==> v@ == truth(id@),
     { unimplemented!() }
+
+
+    #[verifier::external_body] pub fn append_compaction_checkpoint_created_manual(&self, id: &str, p: CompactionCheckpointCreatedPayload) -> (r: Result<String, String>)
+        requires
+            p.to_message_id is Some && is_message_boundary(id@, p.to_seq, p.to_message_id->Some_0@),      // [manual_checkpoint.frame_is_written_only_at_a_message_boundary_of_the_thread]
+            summary_covers(p.summary_artifact_id@, id@, p.to_seq),      // [manual_checkpoint.frame_references_a_summary_whose_coverage_matches]
+        ensures r is Ok ==> checkpoint_written(id@, p.to_seq, p.to_message_id->Some_0@, p.summary_artifact_id@),
+    { unimplemented!() }
+
+    //@@ fn crates/ripd/src/continuities.rs ContinuityStore::compaction_checkpoint_cumulative_v1 rules=R9 r7=0
+    //@@ rewrite events.iter().filter_map(|event| match &event.kind { EventKind::ContinuityMessageAppended { .. } => Some((event.seq, event.id.clone())), _ => None, }).collect() ==>> message_rows(&events)
+    //@@ rewrite message_events.iter().find(|(_, id)| id == &message_id) ==>> vfind_by_id(&message_events, &message_id)
+    //@@ rewrite message_events.iter().find(|(seq, _)| *seq == to_seq) ==>> vfind_by_seq(&message_events, to_seq)
+    //@@ rewrite message_events .get(idx) ==>> vget_row(&message_events, idx)
+    //@@ rewrite crate::compaction_summary::NewCumulativeCompactionSummaryV1 ==>> NewCumulativeCompactionSummaryV1
+    //@@ rewrite self.append_compaction_checkpoint_created( ==>> self.append_compaction_checkpoint_created_manual(
+    //@@ rewrite let target = (message_count / stride) * stride; ==>> proof { lemma_floor_multiple(message_count as nat, stride as nat); } let target = (message_count / stride) * stride;
+    //@@ sig
+        ensures
+            ret matches Ok(t) ==> {
+                let m = msg_rows(truth(thread_id@));
+                &&& checkpoint_written(thread_id@, t.2, t.3@, t.1@)      // [manual_checkpoint.what_is_reported_is_the_frame_that_was_written]
+                &&& req.to_seq matches Some(s) ==> t.2 == s
+                &&& req.to_message_id matches Some(mid) ==> t.3@ == mid@
+                // [manual_checkpoint.without_a_target_the_cut_is_the_last_multiple_of_the_stride]
+                &&& (req.to_seq is None && req.to_message_id is None) ==> {
+                    let stride = match req.stride_messages { Some(v) => v as int, None => 10000 };
+                    &&& stride > 0 && (m.len() as int) / stride >= 1
+                    &&& (t.2, t.3@) == m[((m.len() as int) / stride) * stride - 1]
+                }
+            },
+    //@@ loop 0
+        invariant __i0 <= __s0.len(),
+        decreases __s0.len() - __i0
+    //@@ end
 
     //@@ fn crates/ripd/src/continuities.rs ContinuityStore::compaction_cut_points_v1 rules=R9 r7=0,1
     //@@ rewrite events.iter().filter_map(|event| match &event.kind { EventKind::ContinuityMessageAppended { .. } => { Some((event.seq, event.id.clone())) } _ => None, }).collect() ==>> message_rows(events)
